@@ -517,8 +517,14 @@ func (x *Exec) unop(fr *Frame, in *ssa.UnOp, st *State) Value {
 		v := x.get(fr, in.X)
 		a := x.toAddr(v, in.X.Type())
 		x.nilCheckAddr(st, in, a, in.X)
-		if _, ok := x.arrayFieldRow(st, a); ok {
-			unsup("array embedded in a struct loaded by value")
+		if row, ok := x.arrayFieldRow(st, a); ok {
+			at := a.curT.Underlying().(*types.Array)
+			if _, isStruct := at.Elem().Underlying().(*types.Struct); isStruct {
+				unsup("embedded array of structs loaded by value")
+			}
+			// the array value is the contents of its row
+			en, es := x.elemComp(at.Elem())
+			return ts.Select(x.comp(st, en, es), row)
 		}
 		r := x.load(st, a)
 		// memory-model axiom: every cell holds a valid value of its type
